@@ -3,6 +3,8 @@ use std::fs;
 #[cfg(tablegen_lsp_verif)]
 use crate::verif_hooks::fs;
 
+use std::collections::HashMap;
+
 use async_lsp::lsp_types::Url;
 
 use ide::file_system::{FileId, FilePath, FileSet, FileSystem};
@@ -11,6 +13,8 @@ use ide::file_system::{FileId, FilePath, FileSet, FileSystem};
 pub struct Vfs {
     file_set: FileSet,
     next_file_id: u32,
+    /// text of the documents that are open in the editor
+    open_documents: HashMap<FileId, String>,
 }
 
 impl Vfs {
@@ -20,6 +24,14 @@ impl Vfs {
 
     pub fn file_for_path(&self, path: &FilePath) -> Option<FileId> {
         self.file_set.file_for_path(path)
+    }
+
+    pub fn open_document(&mut self, file_id: FileId, text: &str) {
+        self.open_documents.insert(file_id, text.to_string());
+    }
+
+    pub fn close_document(&mut self, file_id: &FileId) {
+        self.open_documents.remove(file_id);
     }
 
     fn alloc_file_id(&mut self) -> FileId {
@@ -47,6 +59,13 @@ impl FileSystem for Vfs {
     }
 
     fn read_content(&self, file_path: &FilePath) -> Option<String> {
+        // the editor's buffer, not the file on disk, is the truth for an open document
+        if let Some(file_id) = self.file_for_path(file_path) {
+            if let Some(text) = self.open_documents.get(&file_id) {
+                return Some(text.clone());
+            }
+        }
+
         let Ok(content) = fs::read_to_string(&file_path.0) else {
             tracing::info!("failed to read file: file_path={file_path:?}");
             return None;
